@@ -440,19 +440,22 @@ theorem matchType_congr {d d' : Dfa} {i : Nat} (h : d'[i]? = d[i]?) (t : Nat) :
 /-- state `i` is finished: its edges lead to the states of the successor sets, and only those exist -/
 def Good (N : Nfa) (st : DSt) (i : Nat) : Prop :=
   (∀ e, e ∈ Dfa.edgesOf st.states i → e.2 < st.states.size) ∧
-  ∀ t, match Dfa.matchType st.states i t with
+  (∀ t, match Dfa.matchType st.states i t with
     | some j => j < st.states.size ∧ (∀ m, m ∈ st.key j ↔ SuccRel N (st.key i) t m) ∧ st.key j ≠ []
-    | none => ∀ m, ¬ SuccRel N (st.key i) t m
+    | none => ∀ m, ¬ SuccRel N (st.key i) t m) ∧
+  ((Dfa.edgesOf st.states i).map (·.1)).Nodup
 
 theorem Good.ext {N : Nfa} {st st' : DSt} {i : Nat} (hg : Good N st i) (hinv : DInv N st) (h : DExt st st')
     (hi : i < st.states.size) : Good N st' i := by
-  refine ⟨fun e he => ?_, ?_⟩
+  have hedges : Dfa.edgesOf st'.states i = Dfa.edgesOf st.states i := by
+    unfold Dfa.edgesOf; rw [h.same i hi]
+  refine ⟨fun e he => ?_, ?_, by rw [hedges]; exact hg.2.2⟩
   · have : Dfa.edgesOf st'.states i = Dfa.edgesOf st.states i := by
       unfold Dfa.edgesOf; rw [h.same i hi]
     rw [this] at he
     exact Nat.lt_of_lt_of_le (hg.1 e he) h.size
   intro t
-  have := hg.2 t
+  have := hg.2.1 t
   rw [matchType_congr (h.same i hi) t]
   cases hm : Dfa.matchType st.states i t with
   | none =>
@@ -712,7 +715,15 @@ theorem exploreSt_spec (N : Nfa) (hN : N.WF) (U : List (List Nat)) (hU : ∀ l, 
           cases hc : cur.states[st.states.size]? with
           | none => exact absurd hc this
           | some s0 => simp
-        refine ⟨fun e he => ?_, ?_⟩
+        have hlabels : ∀ (out : List (Nat × List Nat)) (acc : List (Nat × Nat)),
+            List.Forall₂ (fun (p : Nat × List Nat) (q : Nat × Nat) =>
+              q.1 = p.1 ∧ q.2 < cur.states.size ∧ cur.key q.2 = sortDesc p.2) out acc →
+            acc.map (·.1) = out.map (·.1) := by
+          intro out acc hf
+          induction hf with
+          | nil => rfl
+          | cons hpq _ ih => simp only [List.map_cons, ih, hpq.1]
+        refine ⟨fun e he => ?_, ?_, by rw [hedges, hlabels _ _ hloop.edges]; exact hout.terms⟩
         · rw [hedges] at he
           simp only [Array.size_modify]
           have hall : ∀ (out : List (Nat × List Nat)) (acc : List (Nat × Nat)),
@@ -770,7 +781,11 @@ theorem exploreSt_spec (N : Nfa) (hN : N.WF) (U : List (List Nat)) (hU : ∀ l, 
               rw [hnil] at this
               simp at this
       · have hg := hloop.good i (by omega) hi2
-        refine ⟨fun e he => ?_, ?_⟩
+        have hedges' : Dfa.edgesOf (cur.states.modify st.states.size (fun s => { s with edges := acc })) i =
+            Dfa.edgesOf cur.states i := by
+          unfold Dfa.edgesOf
+          rw [Array.getElem?_modify, if_neg (fun h => hi h.symm)]
+        refine ⟨fun e he => ?_, ?_, by rw [hedges']; exact hg.2.2⟩
         · have : Dfa.edgesOf (cur.states.modify st.states.size (fun s => { s with edges := acc })) i =
               Dfa.edgesOf cur.states i := by
             unfold Dfa.edgesOf
@@ -779,7 +794,7 @@ theorem exploreSt_spec (N : Nfa) (hN : N.WF) (U : List (List Nat)) (hU : ∀ l, 
           simp only [Array.size_modify]
           exact hg.1 e he
         intro t
-        have := hg.2 t
+        have := hg.2.1 t
         rw [hmt i hi t]
         simp only [hkeyfin, Array.size_modify]
         exact this
@@ -823,7 +838,7 @@ theorem run_spec (N : Nfa) (st : DSt) (hall : ∀ i, i < st.states.size → Good
   | cons t w ih =>
     intro i hi hne
     unfold Dfa.run RunSet
-    have hg := (hall i hi).2 t
+    have hg := (hall i hi).2.1 t
     cases hm : Dfa.matchType st.states i t with
     | none =>
       rw [hm] at hg
@@ -882,6 +897,43 @@ theorem dfa_edges_lt (N : Nfa) (hN : N.WF) :
   refine ⟨h0, fun q e he => ?_⟩
   by_cases hq : q < st.states.size
   · exact (hall q hq).1 e he
+  · unfold Dfa.edgesOf at he
+    rw [Array.getElem?_eq_none_iff.2 (by omega)] at he
+    simp at he
+
+/-- the compiled automaton is deterministic: no state has two edges with the same label (`explore` keeps one
+    entry of `out` per term) -/
+theorem dfa_det (N : Nfa) (hN : N.WF) (q : Nat) : (((dfa N).edgesOf q).map (·.1)).Nodup := by
+  obtain ⟨st, hd, _, _, _, hall⟩ := dfa_spec N hN
+  rw [hd]
+  by_cases hq : q < st.states.size
+  · exact (hall q hq).2.2
+  · unfold Dfa.edgesOf
+    rw [Array.getElem?_eq_none_iff.2 (by omega)]
+    simp
+
+/-- every edge of the compiled automaton carries the term of some NFA edge -/
+theorem dfa_label (N : Nfa) (hN : N.WF) (q : Nat) (e : TypeId × Nat) (he : e ∈ (dfa N).edgesOf q) :
+    ∃ n ed, ed ∈ N.getD n [] ∧ ed.1 = some e.1 := by
+  obtain ⟨st, hd, _, _, _, hall⟩ := dfa_spec N hN
+  rw [hd] at he
+  by_cases hq : q < st.states.size
+  · have hg := (hall q hq).2.1 e.1
+    have hsome : (Dfa.matchType st.states q e.1).isSome = true := by
+      unfold Dfa.matchType
+      rw [Option.isSome_map, List.find?_isSome]
+      exact ⟨e, he, by simp⟩
+    cases hm : Dfa.matchType st.states q e.1 with
+    | none => rw [hm] at hsome; simp at hsome
+    | some j =>
+      rw [hm] at hg
+      simp only at hg
+      obtain ⟨_, hmem, hne⟩ := hg
+      cases hk : st.key j with
+      | nil => exact absurd hk hne
+      | cons a l =>
+        obtain ⟨n, _, ed, hed, hterm, _⟩ := (hmem a).1 (by rw [hk]; simp)
+        exact ⟨n, ed, hed, hterm⟩
   · unfold Dfa.edgesOf at he
     rw [Array.getElem?_eq_none_iff.2 (by omega)] at he
     simp at he
